@@ -19,7 +19,8 @@ PID = 'C11'
 _RUN = {}
 PROMPT = re.compile(r'(?<!=)> ')
 ROW = re.compile(r'^(\d+) *\| (.*):(\d+):(\d+) +(\S+)$')
-BAD_OUT = set('\n\r[>') | {chr(i) for i in range(32)} | {'\x7f', '\x85', ' ', ' '}
+# characters that would make the line-oriented transcript ambiguous; other control characters are compared like any text
+BAD_OUT = set('\n\r[>') | {'\x85', '\u2028', '\u2029', '\x0b', '\x0c', '\x1c', '\x1d', '\x1e'}
 
 
 class _End(Exception):
@@ -281,16 +282,23 @@ def _case(i):
         # bounds, trimmed or compacted snapshots)
         deep, replay = False, False
         for _ in range(12):
-            name, prog = 'tmpl:countdown(very deep)', gen.tmpl_countdown(rng, iters=rng.choice([600, 800, 1100, 1400]))
+            if (i // 100) % 5 == 0:
+                # tens of thousands of steps: a loop whose state does not grow (the junk of every round is printed), so that the
+                # debugger's one-snapshot-per-step history stays small
+                nit = rng.choice([4200, 5000, 9000, 17000])
+                name, prog = 'tight_loop(very deep)', (gen.push_value(3 * nit + rng.choice([0, 1, 2])) + [(0, 1, 3, 4), (3, 1, rng.choice([1, 2]), None), (1, 2, 3, None),
+                                                                                                       (5, 1, 3, ('?', None, 4))])
+            else:
+                name, prog = 'tmpl:countdown(very deep)', gen.tmpl_countdown(rng, iters=rng.choice([600, 800, 1100, 1400]))
             prog = prog + [(0, 1, 65, None), (1, 1, rng.choice([1, 2]), None)]
-            m_, ro_, re__, rend_ = P.admit(prog, '', Limits(steps=20000, out_chars=10 ** 6))
+            m_, ro_, re__, rend_ = P.admit(prog, '', Limits(steps=100000, out_chars=10 ** 6))
             if not rend_.startswith('notadmitted') and not (BAD_OUT & set(ro_ + re__)):
                 break
     empty = (i % 97 == 5)
     if empty:
         # a file without a single command: the debugger has nothing to step and must end at once, whatever is typed
         name, prog, deep, replay = 'empty_program', [], False, False
-    lim = Limits(steps=20000, out_chars=10 ** 6) if very_deep else Limits(steps=1500)
+    lim = Limits(steps=100000, out_chars=10 ** 6) if very_deep else Limits(steps=1500)
     m, ro, re_, rend = P.admit(prog, '', lim)
     if rend.startswith('notadmitted') or m.st['stdin_reads']:
         res['status'] = 'reject:' + ('input' if m.st['stdin_reads'] else 'budget')
@@ -311,7 +319,7 @@ def _case(i):
     script = gen_script(rng, len(prog), deep)
     if very_deep:
         n = len(prog)
-        nb = rng.choice([1030, 1100, 2050, 2100, m.steps + 3, m.steps - 5])
+        nb = rng.choice([1030, 1100, 2050, 2100, m.steps + 3, m.steps - 5]) if m.steps < 16000 else rng.choice([m.steps // 2 + 7, m.steps - 5, m.steps + 3, 8200, 16400])
         script = ['b %d' % (n - 2), rng.choice(['r', 'run'])] + ['p'] * nb + ['s', 'n', 's'] + (['p'] * rng.randint(1, 1100) + ['s', 'n'] if rng.random() < 0.5 else [])
     if replay:
         total = m.steps
@@ -323,7 +331,8 @@ def _case(i):
             script += ['n'] * rng.randint(1, b + 3) + ['s']
         if len(script) > 900:
             script = script[:900] + ['s']
-    fname = rng.choice(['d%d_%d.hyeong', 'd%d_%d.hyeong', 'd %d:%d.hyeong', '디버그%d_%d.hyeong']) % (os.getpid(), i)
+    fname = rng.choice(['d%d_%d.hyeong', 'd%d_%d.hyeong', 'd %d:%d.hyeong', '디버그%d_%d.hyeong', '안녕하세요_세계_프로그램_예제_디버그_%d_%d.hyeong',
+                        'a_rather_long_file_name_for_a_program_%d_%d.hyeong']) % (os.getpid(), i)
     path = P.write_program(rundir, fname, text)
     res['key'] = C.sha(text + '\0' + '\n'.join(script))
     res['src'] = name
@@ -335,7 +344,7 @@ def _case(i):
             return res
         eol = '\r\n' if rng.random() < 0.1 else '\n'
         last_eol = '' if (script and script[-1].strip() and rng.random() < 0.2) else eol
-        p = C.run_proc([C.HYEONG, 'debug', '--color', 'never', path], (eol.join(script) + last_eol).encode() if script else b'', cpu=20)
+        p = C.run_proc([C.HYEONG, 'debug', '--color', 'never', path], (eol.join(script) + last_eol).encode() if script else b'', cpu=(600 if very_deep else 20))
         res['hist'] = stats
         if very_deep:
             stats['very_deep_sessions'] = 1
